@@ -28,7 +28,9 @@ def tree_events(text):
     except BaseException:  # noqa
         return out
     nodes = rewrite.inorder(t)
-    if len(nodes) > 40:
+    def depth(n):
+        return 0 if n is None else 1 + max(depth(n.left), depth(n.right))
+    if len(nodes) > 40 or depth(t) > 9:
         return out          # (to_math_ml of a deep product takes exponential time in the pinned code; see DESIGN.md section 11 #13)
     try:
         xml = t.to_math_ml()
@@ -104,6 +106,7 @@ def static_events(seed):
 def run(ctx, cases=None):
     res = Result()
     texts = parsefam.CURATED[:60] + rewrite.FORMS[:60] + rewrite.EQ_FORMS[:20] + rewrite.test_json_inputs()
+    texts = [t for t in texts if not re.search(r"\d{13,}", t)]      # (asking the factoring rule about 10^13 .. 2^64 takes minutes: KF-C06-factor-bigint)
     from ..common import Pool
     with Pool(16) as pool:
         events = [e for l in pool.map(tree_events, texts, chunksize=10) for e in l]
